@@ -408,7 +408,7 @@ func genActivity() *leanFile {
 
 	// ---- FSM: what PUBLISH_ACTIVITY stores; which ops the FSM knows; snapshot contents
 	ff := load(fsmGo)
-	stores := false
+	stores, storesFound := false, "(case not found)"
 	var fsmOps []string
 	if fd := ff.fn("Server.apply"); fd == nil || fd.Body == nil {
 		lost = append(lost, fsmGo+":Server.apply (function not found)")
@@ -427,9 +427,18 @@ func genActivity() *leanFile {
 				if n, ok := protoOps[name]; ok {
 					fsmOps = append(fsmOps, fmt.Sprint(n))
 				}
-				if name == "PUBLISH_ACTIVITY" && len(cc.Body) == 1 &&
-					nows(ff.src(cc.Body[0])) == "s.activity.SetLastPublishedRaftIndex(log.PublishActivityOp.RaftIndex)" {
-					stores = true
+				if name == "PUBLISH_ACTIVITY" {
+					// the resume rule: WHICH expression the FSM stores (the index carried by the
+					// entry = the recorded event; anything else, e.g. the position of the entry
+					// itself, lets the next dispatcher resume past undelivered operations)
+					var body []string
+					for _, st := range cc.Body {
+						body = append(body, nows(ff.src(st)))
+					}
+					storesFound = strings.Join(body, "; ")
+					if len(cc.Body) == 1 && body[0] == "s.activity.SetLastPublishedRaftIndex(log.PublishActivityOp.RaftIndex)" {
+						stores = true
+					}
 				}
 			}
 			return true
@@ -437,7 +446,7 @@ func genActivity() *leanFile {
 	}
 	l.def("applyStoresArg", "Bool", boolLit(stores), "fsm.go apply: case proto.Op_PUBLISH_ACTIVITY: s.activity.SetLastPublishedRaftIndex(log.PublishActivityOp.RaftIndex)")
 	if !stores {
-		lost = append(lost, fsmGo+":Server.apply: case proto.Op_PUBLISH_ACTIVITY")
+		lost = append(lost, fsmGo+":Server.apply: case proto.Op_PUBLISH_ACTIVITY: expected s.activity.SetLastPublishedRaftIndex(log.PublishActivityOp.RaftIndex), found "+storesFound)
 	}
 	l.def("fsmOps", "List Nat", "["+strings.Join(fsmOps, ", ")+"]", "proto.Op values handled by Server.apply")
 	inSnap, inRestore := false, false
